@@ -773,7 +773,7 @@ fn main() {
         match args[2].as_str() {
             "desc" => {
                 let d = parse_desc(&args[3]);
-                let mut cx = Ctx { w: &mut out, rng: Rng::new(1), flags: F_SANS | F_REFEN, uni: vec![], uni_every: 0, nrec: 0, prefix: "r".into(), ncase: 0 };
+                let mut cx = Ctx { w: &mut out, rng: Rng::new(1), flags: F_SANS | F_REFEN, uni: vec![], uni_every: 0, nrec: 0, thin: 1, prefix: "r".into(), ncase: 0 };
                 let b = cx.start("r1", &d, false);
                 if let (Some(b), Some(mt)) = (b, args.get(4)) { if let Ok(m) = BoardMove::from_str(mt) { cx.step("r1", 1, &b, &m); } }
             }
@@ -800,7 +800,7 @@ fn main() {
                 "board" => {
                     let flags = match variant.as_str() { "legal" => F_MINIUNI, "san" => F_SANS, "render" => F_RENDER, "fen" => F_REFEN, "all" => F_SANS | F_RENDER | F_REFEN, _ => 0 };
                     let uni = if variant == "universe" { universe() } else { vec![] };
-                    let mut cx = Ctx { w: &mut w, rng: Rng::new(seed * 1000 + shard as u64), flags, uni, uni_every: 0, nrec: 0, prefix: format!("b{}_", shard), ncase: 0 };
+                    let mut cx = Ctx { w: &mut w, rng: Rng::new(seed * 1000 + shard as u64), flags, uni, uni_every: 0, nrec: 0, thin: if tier == "thorough" && variant == "legal" { 5 } else { 1 }, prefix: format!("b{}_", shard), ncase: 0 };
                     suite_board(&mut cx, &tier, shard, nshards, &variant);
                 }
                 "game" => suite_game(&mut w, &tier, seed, shard, nshards, &variant),
